@@ -5,6 +5,8 @@ from facts import op_int, op_local, op_place
 import loaderlib as L
 import callgraph
 
+THOROUGH_CFGS = ('min_none', 'min_rten', 'min_onnx')   # reduced-feature builds of the rten crate (thorough tier)
+
 EXPLANATION = (
     "Termination and dependency discipline of the planner (rten::graph::planner), decided for all graphs including "
     "cyclic and malformed ones: (cycle-guard) the only recursive cycle reachable from Planner::create_plan is "
